@@ -40,7 +40,7 @@ func (e editor) enter(from *Selection, to *Selection, new bool, strategy editStr
 			if err == nil {
 				err = fmt.Errorf("error during endEdit: %w", endErr)
 			} else {
-				err = fmt.Errorf("error during endEdit: %v, previous error: %w", endErr, err)
+				err = fmt.Errorf("error during endEdit: %w, previous error: %w", endErr, err)
 			}
 		}
 	}()
